@@ -437,9 +437,13 @@ def use_port_placeholders(root, rng, p=0.12):
                 x["value"] = E.op("add", x["value"], E.op("mul", E.num(2), b))
 
 
-def gen_hierarchy(rng, p_constrain=0.3, p_placeholder=0.12, **kw):
+def gen_hierarchy(rng, p_constrain=0.3, p_placeholder=0.12, p_strip=0.5, **kw):
     g = Gen(rng, **kw)
     root, _ = g.build("root", g.max_depth, rng.randint(0, 2), is_root=True)
+    # a root WITHOUT parameter links of its own (a plain container) above a subroutine that links a parameter two or more
+    # levels down: the deep link is decomposed all the same
+    if any("." in t[0] for c in root["children"] for _, ts in c["linked_params"] for t in ts) and rng.random() < p_strip:
+        root["linked_params"] = []
     if p_constrain:
         constrain_sizes(root, rng, p_constrain)
     if p_placeholder:
